@@ -8,6 +8,15 @@ import json
 import os
 
 _EVENTS = []
+_CACHES = []   # strong references: id() of a collected cache object may be reused by a later one
+
+
+def _cid(cache):
+    for i, c in enumerate(_CACHES):
+        if c is cache:
+            return i
+    _CACHES.append(cache)
+    return len(_CACHES) - 1
 _OUT = os.environ.get("VERIF_SUITE_TRACES")
 
 
@@ -43,10 +52,10 @@ def pytest_configure(config):
             try:
                 r = _inner(request)
             except C.CacheGetFailure:
-                _EVENTS.append({"e": _name, "c": id(request.cache), "fp": fp, "r": "miss", "dis": dis})
+                _EVENTS.append({"e": _name, "c": _cid(request.cache), "fp": fp, "r": "miss", "dis": dis})
                 raise
             if fp is not None:
-                _EVENTS.append({"e": _name, "c": id(request.cache), "fp": fp,
+                _EVENTS.append({"e": _name, "c": _cid(request.cache), "fp": fp,
                                 "r": ("True" if r else "False") if _name == "exists" else "ok", "dis": dis})
             return r
 
